@@ -408,6 +408,25 @@ def check(run):
                               f"second pass lose the order of the first, so 'first element of each group' is no longer its minimum / the groups are no longer ordered",
                               key=key_of("C06-R9", f.qualname, "unstable-chained-argsort"))
     run.floor("argsort calls in grouping.py", n9, 3)
+    # ------------------------------------------------------------------ R10 nobody else packs rows by hand
+    run.rule("R10", "package-wide: row identity (np.unique / argsort / searchsorted / isin ... ) is never established on a key packed by hand from two "
+                    "index columns in the array's own dtype (`a[:, 0] * n + a[:, 1]`): hashable_rows is the one place that packs, under the range guard of R1-R3")
+    from ..idioms import hand_packed_keys
+    n10 = 0
+    for f in ix.all_functions:
+        if f.parent is not None:
+            continue
+        src_ = ast.unparse(f.node)
+        if not any(k_ in src_ for k_ in ("unique", "argsort", "bincount", "searchsorted", "isin", "in1d", "lexsort")):
+            continue
+        n10 += 1
+        hits = hand_packed_keys(ix, f)
+        run.instance("R10", f.where, f"{f.qualname}: hand-packed row keys: {len(hits)}", not hits)
+        for c_, key_, why_ in hits:
+            run.violation("R10", f"{f.module.rel}:{c_.lineno} {f.qualname}", f"{why_}: the product is computed in the index dtype and wraps for 32-bit input, two "
+                                 f"different rows then compare equal; row identity has to go through grouping.hashable_rows / unique_rows",
+                          key=key_of("C06-R10", f.qualname, "hand-packed"))
+    run.floor("functions that sort / de-duplicate", n10, 100)
     run.assume("element values are bounded only by the range guard read from the source; row count is irrelevant to the packing")
     run.assume("np.bitwise_xor/or/add of fields occupying disjoint bit ranges is injective (arithmetic fact)")
     return {
